@@ -216,10 +216,12 @@ _c.required_asserts = []
 # assumed: weighted_A is handed over as a float64 N x N array (np.array(weighted_A) then keeps the values).
 _c = _K("Network.weighted_local_clustering[formula]", _NW, lang="py", func="Network.weighted_local_clustering", props=("C03",),
         py_mode=True, vectors=True, inputs={"weighted_A": "arr:float64:2", "NN": "int"},
+        # (a node whose denominator vanishes - no in- or no out-strength - has the value 0/0: not part of the contract)
         requires=["NN>=1", "shape(weighted_A,0)==NN and shape(weighted_A,1)==NN"],
         ensures=["shape(result,0)==NN",
-                 "all(result[q]==fsum(lambda k: fsum(lambda m: weighted_A[q,m]*weighted_A[m,k], NN)*weighted_A[k,q], NN)"
-                 "/fsum(lambda k: fsum(lambda m: weighted_A[q,m]*amax(weighted_A), NN)*weighted_A[k,q], NN) for q in range(NN))"],
+                 "all(implies(fsum(lambda k: fsum(lambda m: weighted_A[q,m]*amax(weighted_A), NN)*weighted_A[k,q], NN)!=0, "
+                 "result[q]==fsum(lambda k: fsum(lambda m: weighted_A[q,m]*weighted_A[m,k], NN)*weighted_A[k,q], NN)"
+                 "/fsum(lambda k: fsum(lambda m: weighted_A[q,m]*amax(weighted_A), NN)*weighted_A[k,q], NN)) for q in range(NN))"],
         checks=("shape", "bounds"))
 _c.region = "body"
 _c.required_asserts = []
